@@ -27,7 +27,7 @@ COMP = ("CX", "CZ", "SWAP", "CSWAP", "BS", "XFP", "XPQ", "XFF", "XID")
 # sampler control
 
 
-ACTION_TIMEOUT = 30.0
+ACTION_TIMEOUT = 60.0
 
 
 class ActionTimeout(Exception):
